@@ -31,7 +31,7 @@ func typeOfAst(e ast.Expr) *progen.Type {
 }
 
 // catalogueCases writes the catalogue packages into mod/c and returns them as cases.
-func catalogueCases(mod string, only string, conc bool) []*caseT {
+func catalogueCases(mod string, only string, skip string, conc bool) []*caseT {
 	var cases []*caseT
 	items := catalog.Items()
 	if conc {
@@ -39,6 +39,9 @@ func catalogueCases(mod string, only string, conc bool) []*caseT {
 	}
 	for _, it := range items {
 		if only != "" && !strings.Contains(it.ID, only) {
+			continue
+		}
+		if skip != "" && strings.HasPrefix(it.ID, skip) {
 			continue
 		}
 		dir := filepath.Join(mod, "c", it.ID)
